@@ -261,6 +261,19 @@ glamfit_complex(const struct ndsparse* data, const double* weights, const double
 		return(1);
 	}
 
+	/*
+	 * A solution which is not finite (singular or indefinite normal
+	 * equations, for instance from a penalty on knots of too high a
+	 * multiplicity, or non-finite data) is a failure, not a table.
+	 */
+	for (i = 0; i < coefficients->nrow * coefficients->ncol; i++) {
+		if (!isfinite(((double *)(coefficients->x))[i])) {
+			printf("Solution is not finite\n");
+			cholmod_l_free_dense(&coefficients, c);
+			return(1);
+		}
+	}
+
 	//out->coefficients = malloc(coefficients->nrow * coefficients->ncol *
 	//    sizeof(float));
 	for (i = 0; i < coefficients->nrow * coefficients->ncol; i++)
